@@ -1,11 +1,12 @@
 /-
-  C15 — tie to the source (T), part 3: the spin count and the algorithm name literal in the three
-  `encrypt_*_protection` setters of src/helper/crypt.rs, read from the CURRENT source on every run, are the hand
-  model's (`Umya/Model/PwHash.lean`).  Constants only.
+  C15 — tie to the source (T), part 3: `convert_password_to_hash` and the three `encrypt_*_protection` setters of
+  src/helper/crypt.rs, compiled from the CURRENT source on every run (`Umya/Model/Gen/Fns.lean`), are the hand model's
+  (`Umya/Model/PwHash.lean`) for all arguments; and the literals of the setters (kept from the constants-only tie).
 -/
 import Umya.Lemmas.FnsGenCrypt
+import Umya.Lemmas.FnsGenCryptPw
 namespace Umya.Thm.C15
-open Umya.Gen
+open Umya.Gen Umya.Crypto Umya.PwHash
 
 /-- **Tie to the source (T).**  `key_spin_count` of `encrypt_sheet_protection`, `encrypt_workbook_protection` and
     `encrypt_revisions_protection` is the model's `spinCountConst`; `key_hash_algorithm` is the model's `algName`. -/
@@ -15,5 +16,42 @@ theorem C15_constants_match_source :
     crypt_protection_literals_ints.map (·.1) =
       ["encrypt_sheet_protection.key_spin_count", "encrypt_workbook_protection.key_spin_count", "encrypt_revisions_protection.key_spin_count"] :=
   gen_protection_literals
+
+/-- **Tie to the source (T), the hash function.**  `convert_password_to_hash(password, algorithm, salt, spin_count)` as compiled from
+    the source, calling the compiled `hash` (UTF-16LE of the password, `H(salt ‖ pw)`, then `spin_count` rounds `H(h ‖ LE32 i)`, `i as u32`;
+    `hash` = `Sha512::new()`, `update(buffer_concat(buffers))`, `finalize()` for the names `"SHA512"` / `"SHA-512"`, `Err` — unwrapped, so
+    a panic — otherwise; the hasher state is the bytes fed so far, `finalize` is `P.sha512`) equals the model's
+    `convertPasswordToHash` for ALL passwords, salts, spin counts and algorithm names. -/
+theorem C15_hash_fn_matches_source (P : Prims) (pw alg : List Char) (salt : Bytes) (spin : Nat) :
+    crypt_convert_password_to_hash P.sha512 [] shaUpd pw alg salt spin =
+      if algOk alg then some (convertPasswordToHash P pw salt spin) else none :=
+  gen_convert_password_to_hash P pw alg salt spin
+
+/-- both branches occur -/
+example : algOk algName ∧ ¬ algOk ['M', 'D', '5'] := by decide
+
+/-- **Tie to the source (T), the setters.**  For ALL passwords, salts (`draw 0` = the one `gen_random_16()` call) and prior states of
+    the object: each `encrypt_*_protection` as compiled from the source returns (no panic), the model's record read out of the new
+    object is the model's setter applied to the record read out of the old one (which four fields are set, to what — algorithm name,
+    base64 of the salt, `spin as u32`, base64 of the hash — and which legacy password field is removed), and no other `StringValue` /
+    `UInt32Value` field of the object changes.  The field a struct setter writes is read from the struct's source file. -/
+theorem C15_setters_match_source (P : Prims) (draw : Nat → Bytes) (pw : List Char) (o : rt_Obj) :
+    (∃ o', crypt_encrypt_sheet_protection P.b64 draw P.sha512 [] shaUpd pw o = some o' ∧
+      sheetView o' = setSheetPassword P pw (draw 0) (sheetView o) ∧
+      sameOutside ["algorithm_name", "hash_value", "salt_value", "spin_count", "password"] o o') ∧
+    (∃ o', crypt_encrypt_workbook_protection P.b64 draw P.sha512 [] shaUpd pw o = some o' ∧
+      workbookView o' = setWorkbookPassword P pw (draw 0) (workbookView o) ∧
+      sameOutside ["workbook_algorithm_name", "workbook_hash_value", "workbook_salt_value", "workbook_spin_count", "workbook_password"] o o') ∧
+    (∃ o', crypt_encrypt_revisions_protection P.b64 draw P.sha512 [] shaUpd pw o = some o' ∧
+      workbookView o' = setRevisionsPassword P pw (draw 0) (workbookView o) ∧
+      sameOutside ["revisions_algorithm_name", "revisions_hash_value", "revisions_salt_value", "revisions_spin_count", "revisions_password"] o o') :=
+  ⟨gen_encrypt_sheet_protection P draw pw o, gen_encrypt_workbook_protection P draw pw o, gen_encrypt_revisions_protection P draw pw o⟩
+
+/-- the views distinguish the kinds: an object with a legacy workbook password and a revisions salt has them in different records -/
+example : (workbookView ⟨fun f => if f = "workbook_password" then some ['x'] else if f = "revisions_salt_value" then some ['y'] else none,
+      fun _ => none⟩).workbook.password = some ['x'] ∧
+    (workbookView ⟨fun f => if f = "workbook_password" then some ['x'] else if f = "revisions_salt_value" then some ['y'] else none,
+      fun _ => none⟩).revisions.saltValue = some ['y'] := by
+  constructor <;> simp [workbookView, pwView]
 
 end Umya.Thm.C15
